@@ -5,6 +5,7 @@ import CandidModel.Proofs.EqSub
 import CandidModel.Proofs.EqTrans
 import CandidModel.Proofs.EqSubRef
 import CandidModel.Proofs.EqComplete
+import CandidModel.Proofs.SubTransRef
 /-
   C05 — Subtype and upgrade checks decide the spec relation, independent of order and history.
   Structural facts about the specification relation, and soundness of the checking algorithm (memo table,
@@ -179,6 +180,21 @@ theorem subtyping_is_transitive_away_from_null_fields (env : Env) (hg : Wire.Goo
     (h1 : Sub env a b) (h2 : Sub env b c) : Sub env a c :=
   Wire.sub_trans_no_null_field env hg a b c hga hgb hgc hfa hfb hfc hnn h1 h2
 
+/-- **… function and service references included**: over an environment and for types in which every name resolves,
+there is no placeholder or class type, and field ids / method names are distinct (`deepTy`, `DeepEnv`), `a <: b` and
+`b <: c` give `a <: c` whenever no record and no argument or result list written anywhere in `a`, in `c` or in the
+definitions has a member whose type unfolds to `null` (`nnTy`, `NNEnv`; argument lists are compared as tuple records
+the other way round, which is why the condition is asked of both ends). -/
+theorem subtyping_is_transitive_away_from_null_members (env : Env) (hd : Wire.DeepEnv env) (hn : Wire.NNEnv env) (a b c : Ty)
+    (hda : Wire.deepTy env a = true) (hdb : Wire.deepTy env b = true) (hdc : Wire.deepTy env c = true)
+    (hnna : Wire.nnTy env a = true) (hnnc : Wire.nnTy env c = true)
+    (h1 : Sub env a b) (h2 : Sub env b c) : Sub env a c :=
+  Wire.sub_trans_deep env hd hn a b c hda hdb hdc hnna hnnc h1 h2
+
+/-- the hypothesis on the environment, by evaluation -/
+theorem null_free_environment_by_evaluation (env : Env) (h : Wire.nnEnvB env = true) : Wire.NNEnv env :=
+  Wire.nnEnv_of_B env h
+
 /-- non-vacuity: the chain of the counterexample with `opt text` in place of `null` meets every hypothesis -/
 example :
     let a : Ty := .record (.cons (.named "x") (.prim .nat) .nil)
@@ -251,5 +267,10 @@ example :
     EqEx.accepted (eqAlg EqEx.env 20 [] (.var "A") (.var "B")) = true ∧
     Wire.deepTy EqEx.env (.var "A") = true ∧ Wire.deepTy EqEx.env (.var "B") = true ∧ Wire.deepEnvB EqEx.env = true := by
   refine ⟨by decide +kernel, by decide +kernel, by decide +kernel, by decide +kernel⟩
+
+/-- non-vacuity of `subtyping_is_transitive_away_from_null_members`: the same environment (function references inside
+recursive records) meets the `null`-freeness hypotheses -/
+example : Wire.nnEnvB EqEx.env = true ∧ Wire.nnTy EqEx.env (.var "A") = true ∧ Wire.nnTy EqEx.env (.var "B") = true := by
+  refine ⟨by decide +kernel, by decide +kernel, by decide +kernel⟩
 
 end Candid.Props.C05
